@@ -89,7 +89,7 @@ LEVEL_NOTE = ('trusted (modelled, not verified): PyMatching Matching.decode (ret
               'proved for all sizes about the hand-written lattice model (tied to the class by the C01 '
               'correspondence and, per run, by the op uf.toric: the sector matrices of the model equal code.Hz / '
               'code.Hx and are in the proved class, sizes up to 7x4, 10x10 thorough). The old... definitions model '
-              'uf_support.py before the repair PENDING and are tied to nothing on the current tree (regression '
+              'uf_support.py before the repair c364d83 and are tied to nothing on the current tree (regression '
               'theorems only; they were the compared model until that commit). Tested only, not '
               'proved: constructibility of every (decoder, allowed code) pair; "returns a binary length-2n vector '
               'without raising" for the sweep-match decoders, whose sweepers are modelled by interface only (sweep '
@@ -800,7 +800,7 @@ def oracle_cases(ctx, deep):
     rng = ctx.np_rng(17)
     cases = []
     # corpus: witness of the former defect D15 (union-find on a torus with a side of length 2: parallel edges,
-    # Peeling_Tree.peel flipped both qubits of a tree edge), fixed PENDING; regression input, must pass
+    # Peeling_Tree.peel flipped both qubits of a tree edge), fixed c364d83; regression input, must pass
     cases.append({'decoder': 'UnionFindDecoder', 'code': 'Toric2DCode', 'size': [2, 2],
                   'direction': [0.25, 0.25, 0.5], 'p': 0.125, 'errors': [[[0], []]], 'kind': 'corpus-D15'})
     # corpus: witness of the former defect D16 (XCube matching on a lattice that is not Lx <= Ly <= Lz), fixed 869642d
